@@ -62,7 +62,7 @@ def _rowframe(prop):
     from drivers import rowframe
 
     def variants(tier, r, cin):
-        return list(rowframe.VARIANTS) if tier == "thorough" else [r.choice(rowframe.VARIANTS)]
+        return list(rowframe.VARIANTS) if tier == "thorough" else [r.choice(rowframe.VARIANTS[:4] + rowframe.VARIANTS[4:] * 2)]      # the nullable-dtype variant for a third of the patterns
 
     return runner.PureSpec(
         prop=prop, module="RowFrame", trace_module="RowFrameTrace", driver="drivers.rowframe",
@@ -189,7 +189,8 @@ def _suff():
         prop="C10", module="Suff", trace_module="SuffTrace", driver="drivers.suff",
         cfg={"quick": "Suff_quick.cfg", "thorough": "Suff_thorough.cfg"}, sample={"quick": 1400, "thorough": 12000}, variants=variants,
         spec_files=["Suff.tla", "SuffDefs.tla", "SuffTrace.tla", "Cal.tla"],
-        always=lambda b: ('span |-> 328' in b and 'cls |-> "billing"' in b) or ('lead |-> 6' in b and 'trail |-> 5' in b) or 'mcase |-> TRUE' in b,   # known-finding cases are never sampled away
+        always=lambda b: ('span |-> 328' in b and 'cls |-> "billing"' in b) or ('lead |-> 6' in b and 'trail |-> 5' in b) or 'mcase |-> TRUE' in b
+                          or 'span |-> 400' in b,   # known-finding cases and the second-year gaps are never sampled away
         rule="TLC enumerates class x role x fuel x negatives x start date x span {250..420 incl. 328/329/365/366} x missing-usage and "
              "missing-temperature day counts at each 90% threshold -1/0/+1 x placements (block, early block, spread), plus the monthly-rule cases (1..4 consecutive days of one 30-day / 31-day / February / partial first month without temperature - hourly baselines: or usage; always replayed); a seeded sample is realised as "
              "real frames / series pairs (daily, billing: one row per day; hourly: 24 rows per day) in DST-free and DST zones; "
@@ -229,7 +230,7 @@ def _prep():
     from drivers import prep
 
     def variants(tier, r, cin):
-        return list(prep.VARIANTS) if tier == "thorough" else [r.choice(prep.VARIANTS[:6]), r.choice(prep.VARIANTS[6:10]), r.choice(prep.VARIANTS[10:14]), r.choice(prep.VARIANTS[14:])]
+        return list(prep.VARIANTS) if tier == "thorough" else [r.choice(prep.VARIANTS[:6]), r.choice(prep.VARIANTS[6:10]), r.choice(prep.VARIANTS[10:14]), r.choice(prep.VARIANTS[14:16]), r.choice(prep.VARIANTS[16:])]
 
     return runner.PureSpec(
         prop="C17", module="Prep", trace_module="PrepTrace", driver="drivers.prep",
@@ -262,7 +263,7 @@ def _metrics():
     return runner.PureSpec(
         prop="C16", module="Metrics", trace_module="MetricsTrace", driver="drivers.metrics",
         cfg={"quick": "Metrics_quick.cfg", "thorough": "Metrics_thorough.cfg"}, sample={"quick": 5000, "thorough": 80000}, variants=lambda tier, r, cin: ["-"],
-        spec_files=["Metrics.tla", "MetricsDefs.tla", "MetricsTrace.tla", "Rat.tla"], extra_cases=extra,
+        spec_files=["Metrics.tla", "MetricsDefs.tla", "MetricsTrace.tla", "Rat.tla", "TTable.tla"], extra_cases=extra,
         always=lambda b: 'kind |-> "stats"' not in b or 'drift |-> TRUE' in b,
         rule="TLC enumerates every observed / predicted pair of length 2..3 over small integers with a non-finite marker, parameter counts 1..3, all 1,296 residual patterns of length 4 against a constant observed series (every autocorrelation regime, n' below and above 1; always replayed), the "
              "hourly gate table and 9 stored-metrics cases (real fits of 3 families x 3 baselines); seeded longer integer series (5..12) are added; "
@@ -325,6 +326,7 @@ def _resample(prop):
             return vs if tier == "thorough" else [r.choice(vs)]
         elif cin["kind"] == "subdaily":
             vs = [f + "@" + z for f in ("nan-cells", "absent-rows") for z in ("America/Chicago", "Europe/London", "Australia/Sydney")]
+            vs += ["nan-cells-from7@America/Chicago", "absent-rows-from7@Europe/London"]      # "-from7": the first reading of the frame is at 07:00 local
             if cin["interval"] == 60 and len(cin["missing"]) in (0, 1, 11):
                 # "+twin": nine months of readings; the same instants are processed as a meter of a zone without clock changes just before
                 tw = ["nan-cells+twin@Europe/London", "nan-cells+twin@America/Chicago"]
@@ -332,10 +334,12 @@ def _resample(prop):
         else:
             # "!e0": an electricity meter that reads exactly 0 on the judged day (zero is missing USAGE; the day's temperature is still its mean)
             vs = [f + e + "@" + z for e in ("", "!e0") for f in ("feed-local", "feed-utc", "feed-kolkata") for z in ("America/Chicago", "Europe/London", "Australia/Sydney")]
+            if not cin.get("mh", 0) and cin["interval"] == 60:
+                vs = vs + [f + "@" + z for f in ("nometer-utc", "nometer-frame7") for z in ("America/Chicago", "Europe/London", "Australia/Sydney")]
             if cin.get("mh", 0):     # zero reads are only placed on calendar-day meters (the per-day counts are read through an internal call whose
                 vs = vs[:9]          # frame this harness assembles itself; with usage-less rows off midnight that frame is not the one from_series builds)
                 return vs if tier == "thorough" else [vs[0], r.choice(vs[1:])]
-            return vs if tier == "thorough" else [vs[0], r.choice(vs[1:9]), r.choice(vs[9:])]
+            return vs if tier == "thorough" else [vs[0], r.choice(vs[1:9]), r.choice(vs[9:18])] + ([r.choice(vs[18:])] if len(vs) > 18 else [])
         return vs if tier == "thorough" else [vs[0], r.choice(vs[1:])]
 
     keep = 'pc = "done"'
